@@ -43,6 +43,153 @@ fn normal_pdf(mean: f64, variance: f64, x: f64) -> f64 {
     (1.0 / (2.0 * std::f64::consts::PI * variance).sqrt()) * (-(x - mean) * (x - mean) / (2.0 * variance)).exp()
 }
 
+// ---------------------------------------------------------------------------------------------
+// API surface of the distribution types (C17 scope): every public constructor / accessor / alias
+// and every trait impl, driven with values in which all fields differ
+// ---------------------------------------------------------------------------------------------
+
+fn okb(b: bool) -> &'static str {
+    if b { "ok" } else { "bad" }
+}
+
+fn run_api(toks: &[&str]) -> String {
+    let ids = |from: u64, n: usize| (0..n as u64).map(|i| Fp(from + i)).collect::<Vec<Fp>>();
+    let r = catch(|| match toks[2] {
+        "gaussian" => {
+            let (m, v, m2, v2) = (Fp(3), Fp(4), Fp(50), Fp(60));
+            let g = Gaussian::new(m.clone(), v.clone());
+            let new = g.mean == m && g.variance == v;
+            let c = g.clone();
+            let clone = c.mean == m && c.variance == v;
+            // `clone_from` into a target that differs from the source in every field — directly
+            // and through the containers that forward to it
+            let mut target = Gaussian::new(m2.clone(), v2.clone());
+            target.clone_from(&g);
+            let mut in_vec = vec![Gaussian::new(m2.clone(), v2.clone())];
+            in_vec.clone_from(&vec![g.clone()]);
+            let mut in_option = Some(Gaussian::new(m2.clone(), v2.clone()));
+            in_option.clone_from(&Some(g.clone()));
+            let got = in_option.unwrap();
+            let clone_from = target.mean == m && target.variance == v
+                && in_vec[0].mean == m && in_vec[0].variance == v
+                && got.mean == m && got.variance == v;
+            let text = format!("{:?}", g);
+            let debug = text.starts_with("Gaussian")
+                && text.contains(&format!("mean: {:?}", m))
+                && text.contains(&format!("variance: {:?}", v));
+            // the deprecated alias is the density
+            #[allow(deprecated)]
+            let alias = g.map(&Fp(9)) == g.probability(&Fp(9));
+            format!(
+                "new={} clone={} clone_from={} debug={} map={}",
+                okb(new), okb(clone), okb(clone_from), okb(debug), okb(alias)
+            )
+        }
+        "mvmatrix" => {
+            let mean = Matrix::column(ids(1, 2));
+            let cov = Matrix::from_flat_row_major((2, 2), ids(100, 4));
+            let g = MultivariateGaussian::new(mean.clone(), cov.clone());
+            let accessors = *g.mean() == mean && *g.covariance() == cov;
+            let c = g.clone();
+            let clone = *c.mean() == mean && *c.covariance() == cov;
+            let mut target = MultivariateGaussian::new(Matrix::column(ids(500, 3)), Matrix::from_flat_row_major((3, 3), ids(700, 9)));
+            target.clone_from(&g);
+            let mut in_option = Some(MultivariateGaussian::new(Matrix::column(ids(500, 3)), Matrix::from_flat_row_major((3, 3), ids(700, 9))));
+            in_option.clone_from(&Some(g.clone()));
+            let got = in_option.unwrap();
+            let clone_from = *target.mean() == mean && *target.covariance() == cov
+                && *got.mean() == mean && *got.covariance() == cov;
+            let text = format!("{:?}", g);
+            let debug = text.starts_with("MultivariateGaussian")
+                && text.contains(&format!("mean: {:?}", mean))
+                && text.contains(&format!("covariance: {:?}", cov));
+            format!("new+accessors={} clone={} clone_from={} debug={}", okb(accessors), okb(clone), okb(clone_from), okb(debug))
+        }
+        "mvtensor" => {
+            let mean = Tensor::from([("m", 2)], ids(1, 2));
+            let cov = Tensor::from([("a", 2), ("b", 2)], ids(100, 4));
+            let other = || {
+                MultivariateGaussianTensor::new(
+                    Tensor::from([("x", 3)], ids(500, 3)),
+                    Tensor::from([("y", 3), ("z", 3)], ids(700, 9)),
+                )
+                .expect("valid")
+            };
+            let g = MultivariateGaussianTensor::new(mean.clone(), cov.clone()).expect("valid");
+            let accessors = *g.mean() == mean && *g.covariance() == cov;
+            let c = g.clone();
+            let clone = *c.mean() == mean && *c.covariance() == cov;
+            let mut target = other();
+            target.clone_from(&g);
+            let mut in_vec = vec![other()];
+            in_vec.clone_from(&vec![g.clone()]);
+            let clone_from = *target.mean() == mean && *target.covariance() == cov
+                && *in_vec[0].mean() == mean && *in_vec[0].covariance() == cov;
+            let text = format!("{:?}", g);
+            let debug = text.starts_with("MultivariateGaussianTensor")
+                && text.contains(&format!("mean: {:?}", mean))
+                && text.contains(&format!("covariance: {:?}", cov));
+            format!("new+accessors={} clone={} clone_from={} debug={}", okb(accessors), okb(clone), okb(clone_from), okb(debug))
+        }
+        "error" => {
+            use std::error::Error;
+            let mean = Tensor::from([("m", 2)], ids(1, 2));
+            let not_square = Tensor::from([("a", 2), ("b", 3)], ids(100, 6));
+            let square = Tensor::from([("a", 3), ("b", 3)], ids(200, 9));
+            let e1 = *MultivariateGaussianTensor::new(mean.clone(), not_square.clone()).err().expect("not square");
+            let e2 = *MultivariateGaussianTensor::new(mean.clone(), square.clone()).err().expect("wrong length");
+            let variants = matches!(e1, MultivariateGaussianError::NotCovarianceMatrix { .. })
+                && matches!(e2, MultivariateGaussianError::MeanVectorWrongLength { .. });
+            let clone = e1.clone() == e1 && e2.clone() == e2;
+            let mut target = e2.clone();
+            target.clone_from(&e1);
+            let clone_from = target == e1;
+            let partial_eq = e1 != e2
+                && e1 == MultivariateGaussianError::NotCovarianceMatrix { mean: mean.clone(), covariance: not_square.clone() }
+                && e1 != MultivariateGaussianError::NotCovarianceMatrix { mean: mean.clone(), covariance: square.clone() }
+                && e2 != MultivariateGaussianError::MeanVectorWrongLength { mean: Tensor::from([("m", 2)], ids(7, 2)), covariance: square.clone() };
+            let text = format!("{:?}", e1);
+            let debug = text.starts_with("NotCovarianceMatrix")
+                && text.contains(&format!("mean: {:?}", mean))
+                && text.contains(&format!("covariance: {:?}", not_square));
+            let display = format!("{}", e1) == format!("Covariance matrix is not square: {:?}", not_square)
+                && format!("{}", e2)
+                    == format!(
+                        "Mean vector has a different length {:?} to the covariance matrix size: {:?}",
+                        mean.shape(), square.shape()
+                    );
+            let source = e1.source().is_none() && e2.source().is_none();
+            let shown = format!("{}", e2);
+            let boxed: Box<dyn Error> = Box::from(e2);
+            let into_box = boxed.to_string() == shown;
+            format!(
+                "variants={} clone={} clone_from={} partial_eq={} debug={} display={} source={} into_box={}",
+                okb(variants), okb(clone), okb(clone_from), okb(partial_eq), okb(debug), okb(display), okb(source), okb(into_box)
+            )
+        }
+        _ => "bad-op".to_string(),
+    });
+    match r {
+        Ok(s) => s,
+        Err(k) => panic_str(k),
+    }
+}
+
+const C17_TYPES: [&str; 4] = ["Gaussian", "MultivariateGaussian", "MultivariateGaussianTensor", "MultivariateGaussianError"];
+const C17_DRIVEN: [&str; 28] = [
+    "Gaussian::new", "Gaussian::approximating", "Gaussian::probability", "Gaussian::draw", "Gaussian::map",
+    "Gaussian:derive(Clone)", "Gaussian:derive(Debug)", "Gaussian:impl(Clone)",
+    "MultivariateGaussian::new", "MultivariateGaussian::mean", "MultivariateGaussian::covariance",
+    "MultivariateGaussian::draw", "MultivariateGaussian:derive(Clone)", "MultivariateGaussian:derive(Debug)",
+    "MultivariateGaussian:impl(Clone)",
+    "MultivariateGaussianTensor::new", "MultivariateGaussianTensor::mean", "MultivariateGaussianTensor::covariance",
+    "MultivariateGaussianTensor::draw", "MultivariateGaussianTensor:derive(Clone)",
+    "MultivariateGaussianTensor:derive(Debug)", "MultivariateGaussianTensor:impl(Clone)",
+    "MultivariateGaussianError:derive(Clone)", "MultivariateGaussianError:derive(Debug)",
+    "MultivariateGaussianError:derive(PartialEq)", "MultivariateGaussianError:impl(Display)",
+    "MultivariateGaussianError:impl(Error)", "MultivariateGaussianError:impl(Clone)",
+];
+
 /// `Gaussian::approximating`: the mean and the (population) variance of the data
 fn run_approx<T>(data: &str) -> String
 where
@@ -273,6 +420,7 @@ impl Runner {
                     }
                 }
             }
+            "api" => run_api(toks),
             "approx" => {
                 if toks[2] == "rat" {
                     run_approx::<Rat>(toks[3])
@@ -347,6 +495,13 @@ fn rat_llt(n: usize, l: &[Rat]) -> Vec<Rat> {
 }
 
 pub fn gen(g: &mut Gen) {
+    // ---- API surface of the distribution types -------------------------------------------------------
+    for kind in ["gaussian", "mvmatrix", "mvtensor", "error"] {
+        g.op(format!("@ api {}", kind));
+        g.count("api.type-surface");
+    }
+    crate::c08::scan_public_items(g, "src/distributions.rs", &C17_TYPES, &C17_DRIVEN);
+
     // ---- density -------------------------------------------------------------------------------
     let means = [-3.0, -1.5, -0.25, 0.0, 0.5, 2.0, 10.0];
     let variances = [0.01, 0.25, 0.5, 1.0, 2.0, 4.0, 9.0, 100.0];
